@@ -55,13 +55,18 @@ def corpus():
     out.append({"fs": "mem", "tree": enc_tree({"A": {"a.sm": STRAY}, "B": {"b.ssc": SSC_GOOD, "b.sm": STRAY}}), "strict": False, "ignore": False, "encoding": None})
     out.append({"fs": "native", "tree": enc_tree({"A": {"a.sm": ENC}}), "strict": True, "ignore": False, "encoding": "cp1252"})
     out.append({"fs": "mem", "tree": enc_tree({"A": {"a.sm": GOOD, "b.sm": GOOD}}), "strict": True, "ignore": True, "encoding": None})
+    # song folders named like files
+    out.append({"fs": "native", "tree": enc_tree({"Remix.MP3": {"a.sm": GOOD}, "cover.png": {"b.ssc": SSC_GOOD}, "Theme (full ver.).ogg": {"c.sm": GOOD}, "x.oga": {}, "plain": {"d.sm": GOOD}}),
+                "strict": True, "ignore": False, "encoding": None})
+    out.append({"fs": "mem", "tree": enc_tree({"Remix.wav": {"a.sm": GOOD}, "cover.JPG": {"b.ssc": SSC_GOOD}, "real.sm": GOOD}), "strict": True, "ignore": False, "encoding": None})
     return out
 
 
 def gen(rng, i, tier):
     tree = {}
     for j in range(rng.choice([0, 1, 2, 3, 5])):
-        tree["dir%d%s" % (j, rng.choice(["", " x", ".smx", " sm"]))] = rand_song_dir(rng)
+        tree["dir%d%s" % (j, rng.choice(["", " x", ".smx", " sm", " (full ver.).ogg", ".png", ".sm.old", ".JPG", ".mp3"]))] = rand_song_dir(rng)     # a folder is a folder, whatever its name ends in
+    # (folders whose own name ends in .sm/.ssc are left out: the quantifier builds trees from FILE names with simfile extensions; see DESIGN.md 10.5)
     for n in rng.sample(SIM_NAMES + NEAR, rng.choice([0, 1, 2])):
         tree[n] = GOOD
     return {"fs": rng.choice(["native", "mem"]), "tree": enc_tree(tree), "strict": rng.random() < 0.5, "ignore": rng.random() < 0.4,
